@@ -50,6 +50,8 @@ RULE = (
     "non-trivial = the block under test reached the receiver and was decided (event produced or transport closed); "
     "distinct = distinct (kind, V-broken rule set, either tags, outcome, ending, content-length class, encoding)."
 )
+RULE += ' Special regular fields of the sequence generator include host, te, connection, content-type.'
+
 ASSUMPTIONS = [
     "V (vf/c15_validator.py) is the reading of the property text: names may not contain bytes <=0x20, 0x7F, >=0x80, A-Z; "
     "values may not contain NUL/CR/LF nor start/end with SP/HTAB (empty value is fine); pseudo-headers first, unique, "
